@@ -32,7 +32,7 @@ ASSUMPTIONS = [
 NSHARDS = {'quick': 16, 'thorough': 16}
 FAIL_KINDS = ['raise', 'multi_raise', 'compound_raise', 'called', 'called_long', 'gotwant', 'gotwant_eval',
               'gotwant_multi', 'gotwant_second', 'none', 'try_finally', 'try_except_other', 'comprehension',
-              'with_raise', 'nested_try', 'lambda_call', 'while_else', 'compile_return', 'compile_nonlocal']
+              'with_raise', 'nested_try', 'lambda_call', 'while_else', 'compile_return', 'compile_nonlocal', 'bad_repr', 'bad_repr_multi']
 PREFIXES = ['', '', 'r', 'R', 'u', 'U']
 
 
@@ -93,6 +93,13 @@ def gen_doctest(rng, uid, fail_kind):
         L += ['>>> fz = lambda: 1 / 0', '>>> w = 3', '>>> fz()  # %s' % fm]
     elif fail_kind == 'while_else':
         L += ['>>> n = 2', '>>> while n:', '...     n -= 1', '... else:', '...     raise KeyError("%s")' % fm]
+    elif fail_kind == 'bad_repr':
+        # the value of the evaluated expression cannot be rendered: the failing line is the statement, not its want
+        L += ['>>> class BR:', '...     def __repr__(self):', '...         raise RuntimeError("norepr")',
+              '>>> BR()  # %s' % fm, 'something', 'second want line']
+    elif fail_kind == 'bad_repr_multi':
+        L += ['>>> class BR:', '...     def __repr__(self):', '...         raise RuntimeError("norepr")', '>>> br0 = 1',
+              '>>> br1 = 2', '>>> BR()  # %s' % fm, 'something']
     elif fail_kind == 'compile_return':
         # rejected only when the part is compiled: the failing line is the line the SyntaxError names
         L += ['>>> pre_ok = 1', '>>> return 5  # %s' % fm]
